@@ -11,6 +11,7 @@ import ast
 
 from ..cfg import cond_atoms, known_falsy, known_truthy
 from ..model import self_attr, unparse, walk_body_shallow
+from .util import *  # noqa: F401,F403
 from .util import (names_in, call_name, call_recv, calls_in, kwarg, need, node_assign_value, node_writes_attr, norm,
                    registrations, where)
 
@@ -238,7 +239,8 @@ def run(ctx):
     # the retry's Deferred gets its payload table from the retried list, not the original batch's table
     total_arm = [x for x in ast.walk(hsr.node) if isinstance(x, ast.ListComp) and isinstance(x.generators[0].iter, ast.Call) and
                  call_name(x.generators[0].iter) == "values"]
-    tbl = unparse(total_arm[0].generators[0].iter.func.value) if total_arm else None
+    # the payload table is the handler's first extra parameter (the one the registration's first extra argument binds)
+    tbl = hsr.params[2] if len(hsr.params) > 2 else (unparse(total_arm[0].generators[0].iter.func.value) if total_arm else None)
     rreg = [g for g in registrations(dor, prog) if g["cb"] is not None and unparse(g["cb"]) == "self." + hsr.name]
     okr = bool(rreg) and tbl is not None
     if okr:
